@@ -214,9 +214,9 @@ func (t *TCCServiceProxy) getOrCreateBusinessActionContext(params interface{}) *
 	for i := 0; i < n; i++ {
 		sf := typ.Field(i)
 		if sf.Type == rm.TypBusinessContextInterface {
-			v := val.Field(i).Interface()
-			if v != nil {
-				return v.(*tm.BusinessActionContext)
+			// the field may hold a nil pointer: then a new context is created below
+			if v, ok := val.Field(i).Interface().(*tm.BusinessActionContext); ok && v != nil {
+				return v
 			}
 		}
 		if sf.Type == reflect.TypeOf(tm.BusinessActionContext{}) && val.Field(i).CanInterface() {
